@@ -763,8 +763,68 @@ def negative_first_edge(chk, run):
                        'start': 40000, 'extra': []})
 
 
+def wrapped_block_tapes(chk, run):
+    """A headerless block loaded with LD-BYTES so that it runs past 0xFFFF: the part that wraps round
+    addresses the ROM, which must ignore the writes whether the block is fast-loaded or really loaded.
+    The program then executes EI: HALT, so the ROM's own IM 1 routine at 0x0038 runs once; the tape bytes
+    that wrap onto 0x0038.. are a routine that would overwrite a loaded byte.  Weak claim of C13: loaded
+    bytes, PC and SP are the same with fast-load on and off, on both simulators."""
+    rng = chk.rng
+
+    def parity(d):
+        p = 0
+        for b in d:
+            p ^= b
+        return p
+
+    def blk(flag, d):
+        body = [flag, *d]
+        body.append(parity(body))
+        return [len(body) % 256, len(body) // 256, *body]
+
+    def hdr(name, typ, length, p1, p2):
+        d = [typ, *[ord(c) for c in name.ljust(10)[:10]], length % 256, length // 256, p1 % 256, p1 // 256, p2 % 256, p2 // 256]
+        return blk(0, d)
+
+    for n in range(chk.scale(2, 8)):
+        ram_len = rng.choice((1, 8, 64, 64, 160))              # bytes below 0x10000 (above RAMTOP 0xFF57: the BASIC stack sits just below it)
+        load_addr = 0x10000 - ram_len
+        over = rng.choice((0x3F, 0x40, 0x48, 0x80))            # bytes that wrap to 0x0000..
+        start, stop = 0x8000, 0x800F
+        code = [0xDD, 0x21, load_addr % 256, load_addr // 256, 0x11, (ram_len + over) % 256, (ram_len + over) // 256,
+                0x3E, 0xFF, 0x37, 0xCD, 0x56, 0x05, 0xFB, 0x76, 0x18, 0xFE]
+        data = [rng.randrange(1, 255) for _ in range(ram_len)]
+        wrapped = [0] * over
+        if over > 0x3E:
+            v = (data[0] + 1 + rng.randrange(200)) % 256
+            wrapped[0x38:0x3F] = [0x3E, v, 0x32, load_addr % 256, load_addr // 256, 0xFB, 0xC9]
+        basic = [0, 10, 15, 0, 239, 34, 34, 175, 58, 249, 192, 46, 14, 0, 0, start % 256, start // 256, 0, 13]
+        tap = hdr('w', 0, len(basic), 10, len(basic)) + blk(0xFF, basic) + hdr('c', 3, len(code), start, 32768) + blk(0xFF, code) + blk(0xFF, data + wrapped)
+        tape = run.path(f'wrap{n}.tap')
+        tape_bytes = bytes(tap)
+        with open(tape, 'wb') as f:
+            f.write(tape_bytes)
+        ref_cfg = ['fast-load=0', 'python=0', 'timeout=300']
+        ref, tail = run.load(tape, ref_cfg, stop)
+        chk.case('e2e-wrapped-block', ('wrap', n), {'load_addr': load_addr, 'ram_bytes': ram_len, 'wrapped_bytes': over} if n == 0 else None)
+        if ref is None:
+            chk.note(f'wrapped-block tape {n}: reference configuration does not load ({tail}); skipped')
+            continue
+        s, m = run.parse(ref)
+        if s.pc != stop or m[load_addr:0x10000] != data:
+            chk.violation('wrapped-block:real-load', f'LD-BYTES at {load_addr:#x} for {ram_len}+{over} bytes, really loaded (fast-load=0): PC={s.pc} (expected {stop}), '
+                          f'bytes at {load_addr:#x}.. = {m[load_addr:load_addr + 8]} (tape has {data[:8]})',
+                          {'kind': 'weak', 'tape_name': os.path.basename(tape), 'tape': base64.b64encode(tape_bytes).decode(), 'ref_cfg': ref_cfg,
+                           'cfg': ref_cfg, 'start': stop, 'extra': [], 'region': [load_addr, 0x10000]})
+            continue
+        for cfg in (['fast-load=1', 'python=0', 'timeout=300'], ['fast-load=1', 'python=1', 'timeout=300']):
+            weak_compare(chk, run, tape, tape_bytes, ref_cfg, ref, cfg, stop, (), (load_addr, 0x10000), 'wrapped-block:fast-load',
+                         f'headerless block loaded by LD-BYTES at {load_addr:#x} running {over} bytes past 0xFFFF (ROM must ignore them), then EI: HALT', forked=True)
+
+
 def run(chk, classes):
     run_ = Runner(chk, classes)
+    wrapped_block_tapes(chk, run_)
     negative_first_edge(chk, run_)
     rom_tapes(chk, run_)
     custom_loaders(chk, run_)
